@@ -363,7 +363,7 @@ pub fn norm_load_err(msg: &str) -> String {
         let loc1 = &msg[..a];
         let name = if b > a + 3 { &msg[a + 3..b] } else { "" };
         let loc2 = msg.rsplit(" at ").next().unwrap_or("");
-        format!("dupout {} {} {}", name, loc1, loc2)
+        format!("dupout {} {} {}", plain_name(name), loc1, loc2)
     } else if msg.contains("unknown rule") { "unknown rule".into() }
     else if msg.contains("invalid deps attribute") { "invalid deps attribute".into() }
     else if msg.contains("rspfile and rspfile_content") { "rspfile and rspfile_content need to be both specified".into() }
@@ -372,6 +372,27 @@ pub fn norm_load_err(msg: &str) -> String {
     else if msg.starts_with("read ") { "read".into() }
     else { msg.to_string() };
     format!("err {}", hex(kind.as_bytes()))
+}
+
+/// The quoted (`{:?}`) rendering of a lossily decoded name, reduced to what can be compared with
+/// the bytes of the name: printable ASCII stays, every maximal run of escapes / non-ASCII
+/// characters becomes one `?`.
+pub fn plain_name(quoted: &str) -> String {
+    let mut out = String::new();
+    let mut in_run = false;
+    let mut it = quoted.chars().peekable();
+    while let Some(c) = it.next() {
+        let plain = (' '..='~').contains(&c) && c != '"' && c != '\\';
+        if plain { out.push(c); in_run = false; continue; }
+        if c == '\\' {
+            match it.next() {
+                Some('u') => { while let Some(d) = it.next() { if d == '}' { break; } } }
+                _ => {}
+            }
+        }
+        if !in_run { out.push('?'); in_run = true; }
+    }
+    out
 }
 
 /// Redirect fd 1 to a file while `f` runs; returns what was written there.
@@ -481,6 +502,20 @@ pub fn run(ctx: &mut Ctx) {
     ] {
         ctx.count("special");
         ctx.emit(&format!("load {}", files_tokens(&files, main)), || load_files(&tp, &files, main));
+    }
+    // 5. strings that are awkward to quote in a diagnostic (finding F15), in every position the
+    // loader quotes or stores one
+    for tag in crate::m_diag::TAGS {
+        if tag == "argv" { continue; }
+        for a in crate::m_diag::AWKWARD {
+            for (pre, post) in [("", ""), ("out", ""), ("", "x")] {
+                let mut s = pre.as_bytes().to_vec(); s.extend_from_slice(a); s.extend_from_slice(post.as_bytes());
+                let (m, _) = crate::m_diag::manifest_for(tag, &s);
+                let files = vec![("build.ninja".to_string(), m)];
+                ctx.count("awkward_strings");
+                ctx.emit(&format!("load {}", files_tokens(&files, "build.ninja")), || load_files(&tp, &files, "build.ninja"));
+            }
+        }
     }
 }
 
